@@ -717,6 +717,57 @@ func RandKnotProgram(r *rand.Rand) ProgramV {
 	return p
 }
 
+// RandClosureProgram builds a program over one or two binary predicates on a small graph whose rules are drawn from
+// the closure family: copy of an edge relation, linear and non-linear transitivity in either atom order, symmetry,
+// extension by a step relation, and a second predicate defined through the first. Facts needed by a later atom of a
+// non-linear rule are typically derived rounds after those of its first atom.
+func RandClosureProgram(r *rand.Rand) ProgramV {
+	var p ProgramV
+	p.Preds = append(p.Preds, PredSig{Name: "e0", Sorts: []string{"num", "num"}}, PredSig{Name: "e1", Sorts: []string{"num", "num"}})
+	n := 3 + r.Intn(4)
+	for _, e := range []string{"e0", "e1"} {
+		for k := r.Intn(n + 2); k > 0; k-- {
+			a, b := int64(r.Intn(n)), int64(r.Intn(n))
+			if r.Intn(3) > 0 {
+				b = (a + 1) % int64(n) // mostly a chain
+			}
+			p.Facts = append(p.Facts, AtomV{P: e, Args: []Val{Num(a), Num(b)}})
+		}
+	}
+	np := 1 + r.Intn(2)
+	for i := 0; i < np; i++ {
+		p.Preds = append(p.Preds, PredSig{Name: fmt.Sprintf("p%d", i), Sorts: []string{"num", "num"}, IDB: true, Level: 1})
+	}
+	at := func(name, a, b string) LitV { return LitV{K: "atom", Pred: name, Args: []TermV{VarT(a), VarT(b)}} }
+	for i := 0; i < np; i++ {
+		me := fmt.Sprintf("p%d", i)
+		other := fmt.Sprintf("p%d", r.Intn(np))
+		edge := []string{"e0", "e1"}[r.Intn(2)]
+		p.Rules = append(p.Rules, ClauseV{Head: at(me, "X", "Y"), Body: []LitV{at(edge, "X", "Y")}})
+		for k := 1 + r.Intn(3); k > 0; k-- {
+			var c ClauseV
+			switch r.Intn(7) {
+			case 0:
+				c = ClauseV{Head: at(me, "X", "Z"), Body: []LitV{at(me, "X", "Y"), at(me, "Y", "Z")}}
+			case 1:
+				c = ClauseV{Head: at(me, "X", "Z"), Body: []LitV{at(me, "Y", "Z"), at(me, "X", "Y")}}
+			case 2:
+				c = ClauseV{Head: at(me, "X", "Z"), Body: []LitV{at(edge, "X", "Y"), at(me, "Y", "Z")}}
+			case 3:
+				c = ClauseV{Head: at(me, "Y", "Z"), Body: []LitV{at(me, "X", "Y"), at("e1", "Y", "Z")}}
+			case 4:
+				c = ClauseV{Head: at(me, "Y", "X"), Body: []LitV{at(me, "X", "Y")}}
+			case 5:
+				c = ClauseV{Head: at(me, "X", "Z"), Body: []LitV{at(other, "X", "Y"), at(me, "Y", "Z")}}
+			default:
+				c = ClauseV{Head: at(me, "X", "Z"), Body: []LitV{at(me, "X", "Y"), at(other, "Y", "Z"), at(me, "Z", "W")}}
+			}
+			p.Rules = append(p.Rules, c)
+		}
+	}
+	return p
+}
+
 // RandNegKnotProgram builds a small program over unary predicates whose rules mention each other
 // positively and through negation in any direction, so that about half of them are not stratifiable.
 // Used to check that acceptance itself does not depend on the presentation of the program.
